@@ -57,6 +57,9 @@ type memProc struct {
 	every int
 	n     int
 	out   *json.Encoder
+	// closeAfter > 0: after that many entries the store underneath stops taking writes (closeStore is called once)
+	closeAfter int
+	closeStore func()
 }
 
 func (p *memProc) StartUpdateCrl(m *crlreader.CRLMetaInfo) error {
@@ -69,6 +72,9 @@ func (p *memProc) InsertRevokedCertificate(e *crlreader.CRLEntry) error {
 	p.n++
 	if p.n%p.every == 0 {
 		p.out.Encode(memEvent{Ev: "sample", N: p.n, Heap: liveHeapKiB()})
+	}
+	if p.closeAfter > 0 && p.n == p.closeAfter && p.closeStore != nil {
+		p.closeStore()
 	}
 	if p.inner != nil {
 		return p.inner.InsertRevokedCertificate(e)
@@ -110,6 +116,11 @@ func workerC17(args []string) int {
 		var inner crlreader.CRLProcessor
 		dir, _ := os.MkdirTemp("", "verif.c17.")
 		defer os.RemoveAll(dir)
+		faulty := store == "disk-fault"
+		if faulty {
+			store = "disk"
+		}
+		var closeStore func()
 		if store != "none" {
 			st := crlstore.Map
 			if store == "disk" {
@@ -124,6 +135,7 @@ func workerC17(args []string) int {
 				return 2
 			}
 			defer s.Close()
+			closeStore = s.Close
 			inner = crlstore.CRLPersisterProcessor{CRLStore: s}
 		}
 		every := n / 20
@@ -131,8 +143,17 @@ func workerC17(args []string) int {
 			every = 1
 		}
 		p := &memProc{inner: inner, every: every, out: enc}
+		if faulty {
+			p.closeAfter, p.closeStore = 1000, closeStore
+		}
 		enc.Encode(memEvent{Ev: "reset", Run: fmt.Sprintf("%s/%s/%d", mode, store, n), Heap: liveHeapKiB()})
 		_, err := crlreader.StreamingCRLFileReader{}.ReadCRL(p, path)
+		if err != nil && faulty {
+			// the store stopped taking writes: the read is expected to fail - what is bounded is what it costs until it has failed
+			enc.Encode(memEvent{Ev: "sample", N: p.n, Heap: liveHeapKiB()})
+			enc.Encode(memEvent{Ev: "done", N: p.n, Heap: liveHeapKiB()})
+			return 0
+		}
 		if err != nil {
 			fmt.Fprintln(os.Stderr, "read:", err)
 			return 3
@@ -335,6 +356,8 @@ type c17Run struct {
 	Sig   string // validator path: signature validation mode ("" = none); the signer of the big lists is not configured as trusted
 	// Sibling: the big list is named by a distribution point and arrives after the validator met the damaged store of another location
 	Sibling bool
+	// Fault: the store stops taking writes after 1000 entries (closed underneath): the read fails, and what it costs until then is bounded too
+	Fault bool
 }
 
 // C17 — streaming memory bound.
@@ -394,7 +417,8 @@ func C17(c *vk.Ctx) {
 			c17Run{Mode: "validator", Store: "disk", N: n, Sig: "verify_log"},
 			c17Run{Mode: "reader", Store: "none", N: n, Alg: "ed25519"}, c17Run{Mode: "validator", Store: "disk", N: n, Alg: "ed25519"},
 			// the bound is a bound of the configured path whatever happened before: a store of another location that a crash left damaged
-			c17Run{Mode: "validator", Store: "disk", N: n, Sibling: true})
+			c17Run{Mode: "validator", Store: "disk", N: n, Sibling: true},
+			c17Run{Mode: "reader", Store: "disk", N: n, Fault: true})
 	}
 	if c.Thorough() {
 		runs = append(runs, c17Run{Mode: "reader", Store: "disk", N: n2, Pem: true, NoLF: false}, c17Run{Mode: "reader", Store: "memory", N: n1, Pem: false, NoLF: false}, c17Run{Mode: "reader", Store: "disk", N: n2, NoLF: true})
@@ -419,7 +443,11 @@ func C17(c *vk.Ctx) {
 		if r.Sig != "" {
 			wmode += ":" + r.Sig
 		}
-		wargs := []string{"worker", "c17", wmode, arg, strconv.Itoa(r.N), r.Store, out}
+		wstore := r.Store
+		if r.Fault {
+			wstore = "disk-fault"
+		}
+		wargs := []string{"worker", "c17", wmode, arg, strconv.Itoa(r.N), wstore, out}
 		if r.Sibling {
 			wargs = append(wargs, srv.URL+"/sibling.crl")
 		}
@@ -464,6 +492,9 @@ func C17(c *vk.Ctx) {
 		if r.Sibling {
 			key += "/after-damaged-sibling"
 		}
+		if r.Fault {
+			key += "/store-stops-taking-writes"
+		}
 		if maxHeap[key] == nil {
 			maxHeap[key] = map[int]int64{}
 		}
@@ -491,7 +522,7 @@ func C17(c *vk.Ctx) {
 		validated++
 		c.Eval(fmt.Sprintf("%+v", r))
 		if res.Violation != "" {
-			c.Violation(fmt.Sprintf("memory-grows-with-entries:%s:store=%s:pem=%v:nolf=%v:sig=%s%s", r.Mode, r.Store, r.Pem, r.NoLF, r.Sig, map[bool]string{true: ":after-damaged-sibling"}[r.Sibling]),
+			c.Violation(fmt.Sprintf("memory-grows-with-entries:%s:store=%s:pem=%v:nolf=%v:sig=%s%s", r.Mode, r.Store, r.Pem, r.NoLF, r.Sig, map[bool]string{true: ":after-damaged-sibling"}[r.Sibling]+map[bool]string{true: ":store-stops-taking-writes"}[r.Fault]),
 				fmt.Sprintf("trace of reading %d entries violates heap <= C0 + C1*(held+resident) with C0 = %d KiB, C1 = %d: peak live heap %d KiB (first sample %d KiB)", r.N, c0, c1, peak, first.Heap),
 				map[string]any{"run": r, "peak_kib": peak, "first_kib": first.Heap, "tlc": firstLines(res.Violation, 6)})
 		}
